@@ -1,5 +1,5 @@
 (* C18/Run.v — evaluation of the models and of the validator on harness cases. *)
-From Relic Require Import Base.Prelude Base.Enc Base.Val Generated.C18_gen C18.Model.
+From Relic Require Import Base.Prelude Base.Enc Base.Val Generated.C18_gen C18.Model C18.DirModel.
 
 (* ---- mode 0: red-black insertion on integer keys, as coded (colour of new nodes / root from srcgen)
    input [keys ; observed pre-order list of [key red left right] ; observed root key]
@@ -73,6 +73,82 @@ Definition run_tables (v : val) : val :=
                if list_eqb Z.eqb sat' (zl (vnth 5 v)) && list_eqb Z.eqb msat' (zl (vnth 6 v)) && list_eqb Z.eqb ml' (zl (vnth 7 v)) then [] else [2]
            | _ => [] end)].
 
+
+(* ---- directory states:  [ss mss cutoff root sat ssat rootfiles files] ; one file = [runes nlen type color left right child start size] *)
+Definition dent_of (v : val) : dent :=
+  mkDent (zl (vnth 0 v)) (vz (vnth 1 v)) (vz (vnth 2 v)) (vz (vnth 3 v)) (vz (vnth 4 v)) (vz (vnth 5 v)) (vz (vnth 6 v))
+         (vz (vnth 7 v)) (vz (vnth 8 v)).
+Definition dstate_of (v : val) : dstate :=
+  mkD (map dent_of (vl (vnth 7 v))) (zl (vnth 6 v)) (zl (vnth 4 v)) (zl (vnth 5 v)) (vz (vnth 3 v))
+      (vz (vnth 0 v)) (vz (vnth 1 v)) (vz (vnth 2 v)) false.
+Definition dent_eqb (a b : dent) : bool :=
+  list_eqb Z.eqb (f_runes a) (f_runes b) && (f_nlen a =? f_nlen b) && (f_type a =? f_type b) && (f_color a =? f_color b)
+  && (f_left a =? f_left b) && (f_right a =? f_right b) && (f_child a =? f_child b) && (f_start a =? f_start b) && (f_size a =? f_size b).
+Definition links_eqb (a b : dent) : bool :=
+  (f_color a =? f_color b) && (f_left a =? f_left b) && (f_right a =? f_right b) && (f_child a =? f_child b).
+Definition status_code (r : result dstate) : Z :=
+  match r with Ok _ => 0 | Err e => if (e =? E_STORAGE) || (e =? E_NAME_TOO_LONG) then e else 1 | Panic _ => 2 end.
+
+(* ---- mode 6: one operation of the real writer (before Close) against the model
+   input [pre op obs_status obs_state] ; op = [kind name a b] : kind 0 AddFile(name, a bytes), 1 DeleteFile(name), 2 InsertMSISignature(a, b bytes)
+   obs_status: 0 ok, 1 error, 2 panic, 11 storage refused, 12 name too long
+   output [codes ; model status ; names unique before (spec) ; names unique in the observed state (spec) ;
+           entries of the observed root storage carrying each name of the operation (spec comparison)]
+   codes: 1 status, 2 directory entries, 3 rootFiles, 4 SAT, 5 SSAT differ from the model *)
+Definition op_of (v : val) : dop :=
+  let k := vz (vnth 0 v) in
+  if k =? 0 then OpAdd (zl (vnth 1 v)) (vz (vnth 2 v))
+  else if k =? 1 then OpDel (zl (vnth 1 v))
+  else OpSign (vz (vnth 2 v)) (vz (vnth 3 v)).
+Definition op_names (o : dop) : list (list Z) :=
+  match o with
+  | OpAdd n _ => [utf16_encode n]
+  | OpDel n => [utf16_encode n]
+  | OpSign _ _ => [utf16_encode msi_sig_name; utf16_encode msi_sigex_name]
+  end.
+Definition run_dirop (v : val) : val :=
+  let pre := dstate_of (vnth 0 v) in
+  let o := op_of (vnth 1 v) in
+  let o_status := vz (vnth 2 v) in
+  let obs := dstate_of (vnth 3 v) in
+  let r := run_op o pre in
+  let sc := status_code r in
+  let same_status := if (o_status =? 1) then (sc =? 1) || (sc =? E_STORAGE) || (sc =? E_NAME_TOO_LONG) else sc =? o_status in
+  VL [VZs ((if same_status then [] else [1]) ++
+           match r with
+           | Ok st => if o_status =? 0 then
+                 (if list_eqb dent_eqb (d_files st) (d_files obs) then [] else [2]) ++
+                 (if list_eqb Z.eqb (d_root_files st) (d_root_files obs) then [] else [3]) ++
+                 (if list_eqb Z.eqb (d_sat st) (d_sat obs) then [] else [4]) ++
+                 (if list_eqb Z.eqb (d_ssat st) (d_ssat obs) then [] else [5])
+               else []
+           | _ => [] end);
+      VZ sc; of_bool (spec_unique (root_names pre)); of_bool (spec_unique (root_names obs));
+      VZs (map (fun n => count_same n (root_names obs)) (op_names o))].
+
+Fixpoint diff_at {X} (eqb : X -> X -> bool) (i : Z) (a b : list X) : list Z :=
+  match a, b with
+  | x :: a', y :: b' => if eqb x y then diff_at eqb (i + 1) a' b' else i :: diff_at eqb (i + 1) a' b'
+  | _, _ => []
+  end.
+(* ---- mode 7: the operation followed by the directory part of Close (rebuildTree when the document was changed)
+   input [state before the operation ; op ; directory entries after Close]
+   output [codes ; the tree read back from the OBSERVED entries satisfies the specification ; same for the model's entries]
+   codes: 1 colour / left / right / StorageRoot of some entry differ from the model, followed by the indices of those entries;
+          2 the model's operation does not succeed *)
+Definition run_rebuild (v : val) : val :=
+  let pre := dstate_of (vnth 0 v) in
+  let obs := map dent_of (vl (vnth 2 v)) in
+  match run_op (op_of (vnth 1 v)) pre with
+  | Ok mid =>
+      let st := close_dir mid in
+      let same := list_eqb links_eqb (d_files st) (firstn (length (d_files st)) obs) in
+      VL [VZs (if same then [] else 1 :: diff_at links_eqb 0 (d_files st) obs);
+          of_bool (spec_tree_ok obs (f_child (get_ent obs (d_root mid))) (d_root_files mid));
+          of_bool (spec_tree_ok (d_files st) (f_child (get_ent (d_files st) (d_root st))) (d_root_files st))]
+  | _ => VL [VZs [2]; VZ 0; VZ 0]
+  end.
+
 Definition run (v : val) : val :=
   let m := vz (vnth 0 v) in
   if m =? 0 then run_rb (vnth 1 v)
@@ -81,4 +157,6 @@ Definition run (v : val) : val :=
   else if m =? 3 then run_stream (vnth 1 v)
   else if m =? 4 then run_less (vnth 1 v)
   else if m =? 5 then run_tables (vnth 1 v)
+  else if m =? 6 then run_dirop (vnth 1 v)
+  else if m =? 7 then run_rebuild (vnth 1 v)
   else VL [].
